@@ -465,6 +465,12 @@ func (m *Manager) addTCPConnection(allocation *Allocation, conn net.Conn) (proto
 	if m.allocations[allocation.fiveTuple.Fingerprint()] != allocation {
 		return 0, ErrTCPConnectionTimeoutOrFailure
 	}
+	// Closing the manager closes the allocations but keeps them registered.
+	select {
+	case <-allocation.closed:
+		return 0, ErrTCPConnectionTimeoutOrFailure
+	default:
+	}
 
 	for _, a := range m.allocations {
 		if _, ok := a.tcpConnections[connectionID]; ok {
